@@ -446,6 +446,27 @@ func authorityWiring(c *Ctx) {
 				return true
 			}
 			arg := call.Args[idx]
+			// a local that is assigned once (`govAuthority := authtypes.NewModuleAddress(gov).String()`) stands for its value
+			if id, isIdent := arg.(*ast.Ident); isIdent {
+				if obj := pk.TypesInfo.Uses[id]; obj != nil {
+					var defs []ast.Expr
+					ast.Inspect(f, func(n2 ast.Node) bool {
+						as, ok := n2.(*ast.AssignStmt)
+						if !ok || len(as.Lhs) != len(as.Rhs) {
+							return true
+						}
+						for i, l := range as.Lhs {
+							if lid, ok := l.(*ast.Ident); ok && (pk.TypesInfo.Defs[lid] == obj || pk.TypesInfo.Uses[lid] == obj) {
+								defs = append(defs, as.Rhs[i])
+							}
+						}
+						return true
+					})
+					if len(defs) == 1 {
+						arg = defs[0]
+					}
+				}
+			}
 			ok2 := false
 			if c1, ok := arg.(*ast.CallExpr); ok {
 				if sel, ok := c1.Fun.(*ast.SelectorExpr); ok && sel.Sel.Name == "String" {
